@@ -63,6 +63,7 @@ const (
 	eZero  // object ref freshly allocated: every cell of it reads 0 / false
 	eHavoc // all cells (of refs > water, if water != nil) become unknown
 	eLit   // string literal object
+	eBytesOf // read-only storage of an abstract byte-string value: cell j reads bat(val, j)
 )
 
 type MemEntry struct {
@@ -223,6 +224,12 @@ func (m *Mem) Read(k *kindInfo, ref, idx *Term, upto int) *Term {
 			} else {
 				val = App(DeclFunc("Lit_"+fmt.Sprint(e.ref.id), []Sort{SInt}, SInt), bi(0), bi(255), idx)
 			}
+		case eBytesOf:
+			cond = Eq(ref, e.ref)
+			if cond.IsFalse() {
+				continue
+			}
+			val = batT(e.val, idx)
 		case eCopy:
 			re := Eq(ref, e.ref)
 			if re.IsFalse() {
